@@ -472,6 +472,106 @@ def cross_reduction_shard(redname):
     return tally
 
 
+def default_reduction_shard(pair):
+    """trainers built WITHOUT a batch reduction, batch of three: the kernel rule with the shipped exponential kernels reproduces the
+    dedicated delay-adjusted rule (same rates, same time constants, both at their defaults), and each equals itself built with the
+    documented default (the mean) spelled out. Every triple of histories built as in cross_reduction_shard, parts compared."""
+    tally = Tally()
+    spec = Cellspec("dense", 1, 1)
+    dt, T = 1.0, 2
+    hs = all_histories(T, 2)
+    param = "delay" if pair[0] in DELAY_RULES else "weight"
+    for ha, hb in itertools.product(hs, hs):
+        trio = [ha, hb, hs[(hs.index(ha) + 5) % len(hs)]]
+        case = {"rules": list(pair), "part": "default batch reduction", "histories": trio}
+        tally.add("evaluations")
+        try:
+            outs = {}
+            for rule, red in ((pair[0], None), (pair[1], None), (pair[0], torch.mean), (pair[1], torch.mean)):
+                layer = spec.build(dt, 3, 2.0, torch.full(spec.wshape, 1.0))
+                tr = make(rule, "hebbian", red)
+                tr.register_cell("cell", layer.cell)
+                for t in range(T):
+                    step_layer(layer, spec.pre_tensor([h[t][:1] for h in trio]), spec.post_tensor([h[t][1:] for h in trio]))
+                    tr()
+                acc = getattr(layer.connection.updater, param)
+                outs[(rule, red is None)] = [torch.zeros(spec.wshape) if x is None else x.detach().clone() for x in (acc.pos, acc.neg)]
+        except Exception as ex:
+            tally.violation(f"exception:default-reduction:{pair[0]}:{type(ex).__name__}", case, repr(ex))
+            break
+        for i, nm in enumerate(("pos", "neg")):
+            a, b = outs[(pair[0], True)][i], outs[(pair[1], True)][i]
+            if a.shape != b.shape or not torch.allclose(a, b, atol=1e-6):
+                tally.violation(f"default-reduction:{pair[0]}!={pair[1]}:{nm}", case, f"{nm} part, both without a reduction: {pair[0]} {a.reshape(-1).tolist()} vs "
+                                f"{pair[1]} {b.reshape(-1).tolist()}", a.tolist(), b.tolist())
+            for rule in pair:
+                a, b = outs[(rule, True)][i], outs[(rule, False)][i]
+                if not torch.allclose(a, b, atol=1e-6):
+                    tally.violation(f"default-reduction:{rule}:{nm}", case, f"{nm} part without a reduction {a.reshape(-1).tolist()}, with the documented default "
+                                    f"(mean) {b.reshape(-1).tolist()}", b.tolist(), a.tolist())
+        if ha != hb:
+            tally.mark("nontrivial", ("default-reduction", pair, tuple(map(tuple, ha)), tuple(map(tuple, hb))))
+    tally.sample({"part": "default batch reduction", "rules": list(pair)})
+    return tally
+
+
+def reregister_shard(rule, T):
+    """a cell removed from a trainer and registered again under the same name in the middle of a run: from then on the trainer
+    uses the spike times seen since the new registration (its new monitors), exactly like a second trainer that first met an
+    identically driven layer at that step. Every pre/post history of length T (as batch) x every re-registration step."""
+    tally = Tally()
+    spec = Cellspec("dense", 1, 1)
+    dt = 1.0
+    hs = all_histories(T, 2)
+    B = len(hs)
+    param = "delay" if rule in DELAY_RULES else "weight"
+    three = rule in ("da-mstdp", "da-mstdpd")
+    for p in range(1, T):
+        case = {"rule": rule, "part": "cell re-registered under the same name", "reregistered_before_step": p, "T": T, "batch=histories": B}
+        tally.add("evaluations")
+        try:
+            la = spec.build(dt, B, 2.0, torch.full(spec.wshape, 1.0))
+            lb = spec.build(dt, B, 2.0, torch.full(spec.wshape, 1.0))
+            ta, tb = make(rule, "hebbian"), make(rule, "hebbian")
+            ta.register_cell("cell", la.cell)
+            for t in range(T):
+                if t == p:
+                    ta.del_cell("cell")
+                    ta.register_cell("cell", la.cell)
+                    la.connection.updater.clear()
+                    tb.register_cell("cell", lb.cell)
+                pre, post = spec.pre_tensor([h[t][:1] for h in hs]), spec.post_tensor([h[t][1:] for h in hs])
+                step_layer(la, pre.clone(), post.clone())
+                step_layer(lb, pre.clone(), post.clone())
+                for tr, live in ((ta, True), (tb, t >= p)):
+                    if live:
+                        if three:
+                            tr(1.0, 0.5)
+                        else:
+                            tr()
+            outs = []
+            for L_ in (la, lb):
+                acc = getattr(L_.connection.updater, param)
+                z = torch.zeros(B, *spec.wshape)
+                outs.append([z if x is None else x.detach().clone() for x in (acc.pos, acc.neg)])
+        except Exception as ex:
+            tally.violation(f"exception:reregister:{rule}:{type(ex).__name__}", case, repr(ex))
+            continue
+        for i, nm in enumerate(("pos", "neg")):
+            a, b = outs[0][i], outs[1][i]
+            d = (a - b).abs().reshape(B, -1).amax(1)
+            bi = (d > 1e-6).nonzero().reshape(-1)
+            if len(bi):
+                k = int(bi[0])
+                tally.violation(f"reregister:{rule}:{nm}", {**case, "history(pre,post)": hs[k]}, f"{nm} part accumulated after the re-registration "
+                                f"{a[k].reshape(-1).tolist()}; a trainer that first saw the cell at that step accumulates {b[k].reshape(-1).tolist()}",
+                                b[k].tolist(), a[k].tolist())
+        tally.mark("nontrivial", ("reregister", rule, p))
+    tally.add("histories", B)
+    tally.sample({"part": "re-registration", "rule": rule, "T": T})
+    return tally
+
+
 def run(rep):
     quick = rep.tier == "quick"
     T1 = 4 if quick else 5
@@ -506,6 +606,10 @@ def run(rep):
     for rule in ("da-mstdp", "da-mstdpd"):
         for conn in ("direct", "conv"):
             jobs.append((c11.da_batch_shard, (rule, conn)))
+    for rule in ("da-stdp", "da-stdpd", "da-mstdp", "da-mstdpd", "da-kernel", "da-kerneld"):
+        jobs.append((reregister_shard, (rule, 4)))
+    for pair in (("da-stdp", "da-kernel"), ("da-stdpd", "da-kerneld")):
+        jobs.append((default_reduction_shard, (pair,)))
     # kernel keyword arguments passed as tensors
     for rule in ("da-kernel-t", "da-kerneld-t"):
         for sign in ("hebbian", "anti"):
